@@ -13,6 +13,8 @@ import (
 	"harness/t/fmapint"
 	"harness/t/fmapstr"
 	"harness/t/joinbr"
+	"harness/t/joincc"
+	"harness/t/joinrc"
 	"harness/t/joinrr"
 	"harness/t/joinsb"
 	"harness/t/joinsr"
@@ -20,6 +22,7 @@ import (
 	"harness/t/joinv3"
 	"harness/t/joinv4"
 	"harness/t/pipeline"
+	"harness/t/pipelinebb"
 )
 
 // simConfig draws the scheduling knobs (swarm: different per run).
@@ -404,6 +407,8 @@ func init() {
 	}
 	joinCC("join-chan-recv", joinrr.Join)
 	joinCC("join-chan-bidi", joinbr.Join)
+	joinCC("join-chan-of-bidi", joincc.Join)
+	joinCC("join-recv-chan-of-bidi", joinrc.Join)
 
 	// ---- Join over a slice of channels ---------------------------------------
 	joinSlice := func(name string, join func([]*Chan[int]) *Chan[int]) {
@@ -490,52 +495,56 @@ func init() {
 	joinVar("join-variadic-4", 4, func(c []*Chan[int]) *Chan[int] { return joinv4.Join(c[0], c[1], c[2], c[3]) })
 
 	// ---- Pipeline ---------------------------------------------------------------
-	reg("pipeline", func(ts *tape.Set, trace bool) *Outcome {
-		cf := ts.Fork("cfg")
-		nb := cf.Intn(4)  // items f(a) produces
-		nc := cf.Intn(4)  // items each g(b) produces
-		capF := cf.Intn(3)
-		capG := cf.Intn(3)
-		s := New(simConfig(cf, 60+nb*(20+8*nc), trace), ts.Fork("sched"))
-		h := newHist(1)
-		o := &Outcome{Decoded: map[string]any{"f_items": nb, "g_items": nc, "f_cap": capF, "g_cap": capG}}
-		f := s.Run(func() {
-			fn := func(a int) *Chan[int] {
-				c := Named(Make[int](capF), "f")
-				h.inputs = append(h.inputs, func() (bool, int, string) { return IsClosed(c), BufLen(c), "f" })
-				GoHarness("f-producer", func() {
-					for j := 0; j < nb; j++ {
-						Send(c, a*10+j)
-					}
-					Close(c)
-				})
-				return c
+	pipelineScenario := func(name string, mk func(func(int) *Chan[int], func(int) *Chan[int]) func(int) *Chan[int]) {
+		reg(name, func(ts *tape.Set, trace bool) *Outcome {
+			cf := ts.Fork("cfg")
+			nb := cf.Intn(4) // items f(a) produces
+			nc := cf.Intn(4) // items each g(b) produces
+			capF := cf.Intn(3)
+			capG := cf.Intn(3)
+			s := New(simConfig(cf, 60+nb*(20+8*nc), trace), ts.Fork("sched"))
+			h := newHist(1)
+			o := &Outcome{Decoded: map[string]any{"f_items": nb, "g_items": nc, "f_cap": capF, "g_cap": capG}}
+			f := s.Run(func() {
+				fn := func(a int) *Chan[int] {
+					c := Named(Make[int](capF), "f")
+					h.inputs = append(h.inputs, func() (bool, int, string) { return IsClosed(c), BufLen(c), "f" })
+					GoHarness("f-producer", func() {
+						for j := 0; j < nb; j++ {
+							Send(c, a*10+j)
+						}
+						Close(c)
+					})
+					return c
+				}
+				gn := func(b int) *Chan[int] {
+					c := Named(Make[int](capG), "g"+strconv.Itoa(b))
+					h.addInput(c)
+					GoHarness("g-producer", h.producer(c, func() []int {
+						var its []int
+						for k := 0; k < nc; k++ {
+							its = append(its, b*10+k)
+						}
+						return its
+					}()))
+					return c
+				}
+				p := mk(fn, gn)
+				out := Named(p(7), "out")
+				regOutput(h, out)
+				s.SetInvariant(h.invariant(s))
+				h.consume(out, 0)
+			})
+			finish(s, f, o)
+			if o.Class == "" && len(h.order) != nb {
+				o.Class, o.Detail = "lost-item", fmt.Sprintf("g was applied to %d of the %d items f produced", len(h.order), nb)
 			}
-			gn := func(b int) *Chan[int] {
-				c := Named(Make[int](capG), "g"+strconv.Itoa(b))
-				h.addInput(c)
-				GoHarness("g-producer", h.producer(c, func() []int {
-					var its []int
-					for k := 0; k < nc; k++ {
-						its = append(its, b*10+k)
-					}
-					return its
-				}()))
-				return c
-			}
-			p := pipeline.Pipeline(fn, gn)
-			out := Named(p(7), "out")
-			regOutput(h, out)
-			s.SetInvariant(h.invariant(s))
-			h.consume(out, 0)
+			h.check(o, false, ident)
+			return o
 		})
-		finish(s, f, o)
-		if o.Class == "" && len(h.order) != nb {
-			o.Class, o.Detail = "lost-item", fmt.Sprintf("g was applied to %d of the %d items f produced", len(h.order), nb)
-		}
-		h.check(o, false, ident)
-		return o
-	})
+	}
+	pipelineScenario("pipeline", pipeline.Pipeline)
+	pipelineScenario("pipeline-bidi-stages", pipelinebb.Pipeline)
 
 	// ---- Pipeline: the composed function used twice, concurrently -----------------
 	reg("pipeline-twice", func(ts *tape.Set, trace bool) *Outcome {
